@@ -88,6 +88,10 @@ CHECKS = {
          "Differential property test over a table of 52 exact EagerVec methods: a generated history (initial fill; steps of redundant call / every source grows / every source is truncated at a generated index and regrown with different data; starting index drawn at and below the first changed source index; write-batch limit forced to 1, 3, 17 elements or default through hook H6; windows 0, 1, 2, 5, len-1, len, len+5, usize::MAX; optional flush + re-import) is applied to stored sources of the raw and the Pco family, and after EVERY call the result must equal, bit for bit, the same method evaluated in one call with the default batch limit on a fresh EagerVec, have the length of the shortest governing source, and (22 methods) equal a closed formula over the model sources.",
          "The float methods with lossy resumable state (sma, ema, rma, rolling_average, rolling_sd, expanding_sd, rolling_ema/rma, rolling_ratio) are outside 'exact arithmetic' and are not checked. A call that errs or panics is only a violation when the from-scratch evaluation of the same inputs succeeds. Known findings excluded by construction and counted: KF-C06-1 (all_time_low with exclude_default: method not run), KF-C06-2 (first_per_index across a batch boundary: default batch limit only), KF-C06-3 (first_per_index after truncation + regrowth: its mapping only grows).",
          "differential + metamorphic property testing (incremental history vs from-scratch single call, batch-size variation) with closed-formula references (proptest)", "DESIGN.md §4 C06, §3 E4"),
+ "C19": ("E4-compute", "exploration",
+         "Property test over sequences of compute calls for one representative per compute family (compute_to with an explicit version, transform, transform2, cumulative_transformed_binary with index/evaluation-logging closures; add, multiply, cumulative, sum, max, sum_of_others by their outputs): sources are re-imported under new versions with data that differs at every index, the explicit version changes, sources grow, the caller passes a starting index as if nothing below the stored length had changed, batch limit 1/3/17/default, optional flush + re-import. Version changed => result equals the from-scratch result under the new inputs at every index and the closure ran for exactly 0..len; unchanged => nothing below min(starting index, stored length) is evaluated or altered; header().computed_version() == own + dependency versions after every call and after re-import.",
+         "A source's version changes only through a forced re-import, which also discards its data; ten representative methods, not the whole table (C06 covers the table's values).",
+         "stateful property testing with evaluation-logging closures and a from-scratch differential (proptest)", "DESIGN.md §4 C19, §3 E4"),
 }
 WIP = "not claimed: the generated-input check designed in DESIGN.md §4 was not built within the time available (the technique applies; nothing is asserted about this property)"
 
